@@ -453,9 +453,8 @@ class SparseDrugComboInteraction(BayesianModel, MCMCModel):
             )
         )
 
-        combo_mask = np.sum(data.treatment_ids == CONTROL_SENTINEL_VALUE, axis=1) == (
-            data.treatment_ids.shape[1]
-        )
+        # combination rows: no control treatment in either position
+        combo_mask = np.sum(data.treatment_ids == CONTROL_SENTINEL_VALUE, axis=1) == 0
 
         obs = data.observations[combo_mask]
         cls = data.sample_ids[combo_mask]
